@@ -934,7 +934,8 @@ impl<'a> Exec<'a> {
         if let Some(owned) = self.ops[i].st.owned_fd {
             new_sqes.retain(|q| !(q.opcode == abi::OP_CLOSE && q.fd == owned));
         }
-        if self.oracles.c06 {
+        if self.oracles.c06 || self.oracles.c04 {
+            let cp = if self.oracles.c06 { "C06" } else { "C04" };
             let ud = self.ops[i].user_data;
             if running && !full {
                 let ok = new_sqes.len() == 1 && {
@@ -947,11 +948,11 @@ impl<'a> Exec<'a> {
                     *s == want
                 };
                 if !ok {
-                    self.violation("C06:cancel-missing-or-wrong", format!("dropping running operation {i} (user_data {ud:#x}, {point}) with room in the queue published {new_sqes:?}; expected exactly one ASYNC_CANCEL targeting it"));
+                    self.violation(&format!("{cp}:cancel-missing-or-wrong"), format!("dropping running operation {i} (user_data {ud:#x}, {point}) with room in the queue published {new_sqes:?}; expected exactly one ASYNC_CANCEL targeting it, every other byte of the entry zero"));
                 }
             } else if !new_sqes.is_empty() {
                 let why = if running { "the queue was full" } else { "the operation was not running" };
-                self.violation("C06:unexpected-cancel", format!("dropping operation {i} ({point}) published {new_sqes:?} although {why}"));
+                self.violation(&format!("{cp}:unexpected-cancel"), format!("dropping operation {i} ({point}) published {new_sqes:?} although {why}"));
             }
         }
         if running {
@@ -1068,7 +1069,7 @@ impl<'a> Exec<'a> {
         if !ring.overflow.is_empty() {
             self.feat("overflow");
         }
-        if self.oracles.c05 {
+        if self.oracles.c05 || self.oracles.c02 {
             // K4: slots outside [head, tail) belong to the kernel. Fill them
             // with a plausible completion for a running operation carrying a
             // result no script ever posts.
@@ -1106,7 +1107,7 @@ impl<'a> Exec<'a> {
             }
         });
         sim::sim().enter_hook = Some(hook);
-        if self.oracles.c05 {
+        if self.oracles.c05 || self.oracles.c02 {
             // K4 adversary: the moment a10 publishes a new CQ head, the
             // kernel overwrites every slot outside [head, tail).
             let victim = self.ops.iter().find(|o| o.phase == Phase::Submitted && !o.final_consumed && o.user_data >= 4).map_or(0, |o| o.user_data);
@@ -1123,7 +1124,7 @@ impl<'a> Exec<'a> {
             self.feat("poll-blocking");
         }
         let r = catch(|| self.world.poll_ring(timeout));
-        if self.oracles.c05 {
+        if self.oracles.c05 || self.oracles.c02 {
             a10::verif::install_point(None);
         }
         sim::sim().enter_hook = None;
